@@ -248,8 +248,9 @@ impl From<certificate::VerificationError> for rustls::Error {
         use webpki::Error::*;
         match e {
             InvalidSignatureForPublicKey => rustls::Error::InvalidCertificateSignature,
-            UnsupportedSignatureAlgorithm | UnsupportedSignatureAlgorithmForPublicKey =>
-                rustls::Error::InvalidCertificateSignatureType,
+            UnsupportedSignatureAlgorithm | UnsupportedSignatureAlgorithmForPublicKey => {
+                rustls::Error::InvalidCertificateSignatureType
+            }
             e => rustls::Error::InvalidCertificateData(format!("invalid peer certificate: {e}")),
         }
     }
